@@ -28,7 +28,7 @@ ListOf(t) == [k |-> "list", of |-> t]
 NN(t) == [k |-> "nn", of |-> t]
 Base == {Named("Int"), Named("Str"), Named("E"), Named("In")}
 Wrap1(S) == S \cup {ListOf(t) : t \in S} \cup {NN(t) : t \in {x \in S : x.k # "nn"}}
-Types == IF Depth = 1 THEN Wrap1(Base) ELSE IF Depth = 2 THEN Wrap1(Wrap1(Base)) ELSE Wrap1(Wrap1(Wrap1(Base)))
+Types == IF Depth = 1 THEN Wrap1(Base) ELSE IF Depth = 2 THEN Wrap1(Wrap1(Base)) ELSE IF Depth = 3 THEN Wrap1(Wrap1(Wrap1(Base))) ELSE Wrap1(Wrap1(Wrap1(Wrap1(Base))))
 EnumInternal == [A |-> "e1", B |-> "eb"]
 InFields == << [name |-> "x", py |-> "px", type |-> Named("Int"), hasDef |-> TRUE,  def |-> [k |-> "int", v |-> "3"]],
                [name |-> "y", py |-> "py", type |-> NN(Named("Int")), hasDef |-> FALSE, def |-> [k |-> "null"]],
